@@ -25,7 +25,7 @@ import (
 func init() { commands["C15"] = runC15 }
 
 type c15Op struct {
-	Op     string  `json:"op"` // put | refresh | grefresh | new | get | cget | err | look | read | lbegin | lend
+	Op     string  `json:"op"` // put | act | cfail | refresh | grefresh | new | get | cget | err | look | read | lbegin | lend
 	Name   int     `json:"name,omitempty"`
 	Tok    int     `json:"tok,omitempty"`
 	Upd    int     `json:"upd,omitempty"`
@@ -74,7 +74,10 @@ type c15SV struct {
 
 type c15Service struct {
 	mu      sync.Mutex
-	cur     map[string]c15SV
+	cur     map[string]c15SV          // the ACTIVE version of each secret
+	hist    map[string]map[uint32]int // every version the secret ever had: number -> token (bytes never change)
+	maxv    map[string]uint32
+	rolled  int // answers of GetIfChanged that carried a LOWER version number than the client holds
 	gate    chan struct{} // non-nil: the next GetIfChanged blocks until it is closed
 	fail    string        // name whose poll request fails
 	ans     map[string]string
@@ -83,6 +86,105 @@ type c15Service struct {
 }
 
 var c15ErrService = errors.New("scripted service failure")
+
+func (s *c15Service) remember(name string) {
+	if s.hist == nil {
+		s.hist, s.maxv = map[string]map[uint32]int{}, map[string]uint32{}
+	}
+	if sv, ok := s.cur[name]; ok {
+		if s.hist[name] == nil {
+			s.hist[name] = map[uint32]int{}
+		}
+		s.hist[name][sv.ver] = sv.tok
+		if sv.ver > s.maxv[name] {
+			s.maxv[name] = sv.ver
+		}
+	}
+}
+
+// put creates a new version (numbered above every version the secret ever had) and activates it
+func (s *c15Service) put(name string, tok int) {
+	s.mu.Lock()
+	defer s.mu.Unlock()
+	s.remember(name)
+	s.cur[name] = c15SV{ver: s.maxv[name] + 1, tok: tok}
+	s.remember(name)
+}
+
+func (s *c15Service) del(name string) {
+	s.mu.Lock()
+	defer s.mu.Unlock()
+	delete(s.cur, name)
+	if s.hist != nil {
+		delete(s.hist, name)
+		delete(s.maxv, name)
+	}
+}
+
+// activate makes another EXISTING version of the secret the active one (a rollback when its
+// number is lower, a roll-forward when higher); the version keeps its bytes.  Reports the direction.
+func (s *c15Service) activate(name string, k int) int {
+	s.mu.Lock()
+	defer s.mu.Unlock()
+	s.remember(name)
+	sv, ok := s.cur[name]
+	n := s.maxv[name]
+	if !ok || n < 2 {
+		return 0
+	}
+	target := uint32(1 + k%int(n))
+	if target == sv.ver {
+		target = target%n + 1
+	}
+	s.cur[name] = c15SV{ver: target, tok: s.hist[name][target]}
+	if target < sv.ver {
+		return -1
+	}
+	return 1
+}
+
+// ---- a cache whose Write fails when told to (the cache is outside the program: an input)
+
+var c15ErrCache = errors.New("scripted cache write failure")
+
+type c15Cache struct {
+	mu       sync.Mutex
+	data     []byte
+	writes   int
+	fails    int
+	failNext int
+}
+
+func (c *c15Cache) Write(b []byte) error {
+	c.mu.Lock()
+	defer c.mu.Unlock()
+	c.writes++
+	if c.failNext > 0 {
+		c.failNext--
+		c.fails++
+		return c15ErrCache
+	}
+	c.data = append([]byte(nil), b...)
+	return nil
+}
+
+func (c *c15Cache) Read() ([]byte, error) {
+	c.mu.Lock()
+	defer c.mu.Unlock()
+	return c.data, nil
+}
+
+func (c *c15Cache) counts() (int, int) {
+	c.mu.Lock()
+	defer c.mu.Unlock()
+	return c.writes, c.fails
+}
+
+func (c *c15Cache) failNextWrites(k int) {
+	c.mu.Lock()
+	c.failNext = k
+	c.mu.Unlock()
+}
 
 func (s *c15Service) Get(ctx context.Context, name string) (*api.SecretValue, error) {
 	s.mu.Lock()
@@ -125,6 +227,9 @@ func (s *c15Service) GetIfChanged(ctx context.Context, name string, old api.Secr
 		return nil, api.ErrValueNotChanged
 	}
 	s.ans[name] = fmt.Sprintf("%d, (RValue %d %d)", old, sv.ver, sv.tok)
+	if api.SecretVersion(sv.ver) < old {
+		s.rolled++
+	}
 	return &api.SecretValue{Value: c15Value(sv.tok), Version: api.SecretVersion(sv.ver)}, nil
 }
 
@@ -221,6 +326,7 @@ type c15Item struct {
 }
 
 type c15H struct {
+	cache  *c15Cache
 	mu     sync.Mutex
 	t      *testing.T
 	st     *setec.Store
@@ -336,19 +442,48 @@ func (h *c15H) build(idx int, b []byte, first func()) (int, bool) {
 
 var c15ErrBuild = errors.New("scripted builder failure")
 
+// what Refresh returned (0 no error, 1 the poll failed, 2 the cache's write error), how many cache
+// writes its apply phase made, and whether the cache refused one
+func (h *c15H) pollResult(err error, w0, f0 int) string {
+	w1, f1 := h.cache.counts()
+	cls := 0
+	if err != nil {
+		cls = 1
+		if errors.Is(err, c15ErrCache) {
+			cls = 2
+		}
+	}
+	if f1 > f0 {
+		h.tag("poll-with-failing-cache")
+		if cls == 2 && w1 > w0 {
+			h.tag("cache-fault-on-installing-poll")
+		}
+	}
+	return fmt.Sprintf("%d %d %s", cls, w1-w0, coqBool(f1 > f0))
+}
+
 func (h *c15H) exec(op c15Op, nested bool) {
 	name := c15Names[((op.Name%len(c15Names))+len(c15Names))%len(c15Names)]
 	switch op.Op {
 	case "put":
-		h.svc.mu.Lock()
 		if op.Tok < 0 { // the secret is deleted at the service
-			delete(h.svc.cur, name)
+			h.svc.del(name)
 		} else {
-			sv := h.svc.cur[name]
-			h.svc.cur[name] = c15SV{ver: sv.ver + 1, tok: op.Tok}
+			h.svc.put(name, op.Tok)
 		}
-		h.svc.mu.Unlock()
 		h.tag("put")
+	case "act":
+		// the service activates another existing version: a rollback (lower number) or a roll-forward
+		switch h.svc.activate(name, op.K) {
+		case -1:
+			h.tag("service-rollback")
+		case 1:
+			h.tag("service-rollforward")
+		}
+	case "cfail":
+		// the next 1-3 cache writes fail
+		h.cache.failNextWrites(1 + op.K%3)
+		h.tag("cache-fault-armed")
 	case "refresh":
 		if h.gated {
 			return // would join the gated poll and wait for the gate
@@ -358,11 +493,12 @@ func (h *c15H) exec(op c15Op, nested bool) {
 			fail = name
 		}
 		h.svc.beginPoll(fail, nil)
+		w0, f0 := h.cache.counts()
 		err := h.st.Refresh(h.ctx)
 		ans := h.svc.endPoll()
-		h.emit(c15Item{s: fmt.Sprintf("TRefresh %s %s", ans, coqBool(err == nil)), kind: "refresh"})
+		h.emit(c15Item{s: fmt.Sprintf("TRefresh %s %s", ans, h.pollResult(err, w0, f0)), kind: "refresh"})
 		h.tag("refresh")
-		if strings.Contains(ans, "RValue") && err == nil {
+		if strings.Contains(ans, "RValue") && !strings.Contains(ans, "RErr") {
 			h.tag("refresh-installing")
 		}
 		if nested {
@@ -383,10 +519,11 @@ func (h *c15H) exec(op c15Op, nested bool) {
 			h.exec(in, false)
 		}
 		h.gated = false
+		w0, f0 := h.cache.counts()
 		close(gate)
 		err := <-done
 		ans := h.svc.endPoll()
-		h.emit(c15Item{s: fmt.Sprintf("TPoll %s %s", ans, coqBool(err == nil)), kind: "poll"})
+		h.emit(c15Item{s: fmt.Sprintf("TPoll %s %s", ans, h.pollResult(err, w0, f0)), kind: "poll"})
 		h.tag("gated-refresh")
 	case "new":
 		h.guarded(func() { h.doNew(h.ctx, name, op, nested, nil) })
@@ -671,7 +808,7 @@ func c15Render(in c15Input, tr []c15Item, blog [][4]int, closes [][]int) string 
 }
 
 func c15Run(t *testing.T, in c15Input) (rec Record, tr []c15Item, blog [][4]int, closes [][]int) {
-	h := &c15H{t: t, nextOK: map[int]bool{}, inner: map[int][]c15Op{}, busy: map[int]bool{}, closes: map[int][]int{}, tags: map[string]int{}, late: map[int]*c15Late{}}
+	h := &c15H{t: t, nextOK: map[int]bool{}, inner: map[int][]c15Op{}, busy: map[int]bool{}, closes: map[int][]int{}, tags: map[string]int{}, late: map[int]*c15Late{}, cache: &c15Cache{}}
 	var panicked string
 	bubble(t, func(t *testing.T) {
 		svc := &c15Service{cur: map[string]c15SV{}, ans: map[string]string{}}
@@ -688,7 +825,7 @@ func c15Run(t *testing.T, in c15Input) (rec Record, tr []c15Item, blog [][4]int,
 		ctx, cancel := context.WithCancel(context.Background())
 		defer cancel()
 		st, err := setec.NewStore(ctx, setec.StoreConfig{Client: svc, Secrets: declared, AllowLookup: in.Allow,
-			PollInterval: -1, Cache: setec.NewMemCache(""), Logf: func(string, ...any) {}})
+			PollInterval: -1, Cache: h.cache, Logf: func(string, ...any) {}})
 		if err != nil {
 			panicked = "NewStore: " + err.Error()
 			return
@@ -750,6 +887,12 @@ func c15Run(t *testing.T, in c15Input) (rec Record, tr []c15Item, blog [][4]int,
 	if failed > 0 {
 		tags = append(tags, "builder-failure")
 	}
+	if h.svc != nil && h.svc.rolled > 0 {
+		tags = append(tags, "rollback-seen-by-poll")
+		if h.svc.rolled > 1 {
+			tags = append(tags, "several-rollbacks-seen")
+		}
+	}
 	nclose := 0
 	for _, c := range closes {
 		nclose += len(c)
@@ -758,7 +901,8 @@ func c15Run(t *testing.T, in c15Input) (rec Record, tr []c15Item, blog [][4]int,
 		tags = append(tags, "close-observed")
 	}
 	rec = Record{Kind: "scenario", Input: in, Obs: obs, Key: fmt.Sprintf("%v", obs.Trace),
-		Nontrivial: (rebuilt >= 1 && coalesced) || h.tags["late-on-known"] > 0, Tags: tags,
+		Nontrivial: (rebuilt >= 1 && coalesced) || h.tags["late-on-known"] > 0 ||
+			(rebuilt >= 1 && (h.tags["cache-fault-on-installing-poll"] > 0 || (h.svc != nil && h.svc.rolled > 0))), Tags: tags,
 		Coq: c15Render(in, tr, blog, closes)}
 	if panicked != "" {
 		rec.Direct = &DirectVerdict{OK: false, What: "panic or construction failure: " + panicked}
@@ -831,6 +975,9 @@ func c15Gen(seed uint64, k int) c15Input {
 		}
 		in.Ops = append(in.Ops, op)
 	}
+	// a second stream decides where the service ROLLS BACK (activates an older version again) and
+	// where the cache refuses a write, so that the scenarios of the first stream stay what they were
+	r2 := NewRand(seed, uint64(2500+k))
 	rounds := 2 + r.IntN(5)
 	for q := 0; q < rounds; q++ {
 		ninst := r.IntN(4) // 0..3 installs between Gets
@@ -838,6 +985,15 @@ func c15Gen(seed uint64, k int) c15Input {
 			np := 1 + r.IntN(2)
 			for p := 0; p < np; p++ {
 				in.Ops = append(in.Ops, c15Op{Op: "put", Name: pickName(), Tok: nextTok()})
+			}
+			if r2.IntN(4) == 0 {
+				in.Ops = append(in.Ops, c15Op{Op: "act", Name: in.Ops[0].Name, K: r2.IntN(5)})
+				if r2.IntN(3) == 0 {
+					in.Ops = append(in.Ops, c15Op{Op: "act", Name: r2.IntN(nd), K: r2.IntN(5)})
+				}
+			}
+			if r2.IntN(8) == 0 {
+				in.Ops = append(in.Ops, c15Op{Op: "cfail", K: r2.IntN(3)})
 			}
 			switch x := r.IntN(10); {
 			case x < 6:
@@ -872,6 +1028,118 @@ func c15Gen(seed uint64, k int) c15Input {
 			}
 		}
 	}
+	return in
+}
+
+// scenarios around ROLLBACKS at the service (an older, lower-numbered version activated again, with
+// the bytes it always had; several in a row; forwards again; racing a gated poll) and around a CACHE
+// whose Write fails (on the flush of the poll that installs, on a lookup's flush, intermittently).
+// Neither may cost an updater a version: every poll that installs wakes the watchers.
+func c15GenRoll(seed uint64, k int) c15Input {
+	r := NewRand(seed, uint64(3500+k))
+	in := c15Input{Allow: r.IntN(5) != 0, Server: []int{3, 4}}
+	nd := 1 + r.IntN(2)
+	for i := 0; i < nd; i++ {
+		in.Declared = append(in.Declared, i)
+	}
+	tok := 1
+	nextTok := func() int { tok++; return tok }
+	n0 := r.IntN(nd)
+	other := func() int {
+		if r.IntN(3) == 0 {
+			return 3
+		}
+		return r.IntN(nd)
+	}
+	gets := func() {
+		for u := 0; u < 3; u++ {
+			if r.IntN(4) != 0 {
+				op := c15Op{Op: "get", Upd: u, OK: r.IntN(7) != 0}
+				if r.IntN(6) == 0 {
+					op.Op, op.K = "cget", r.IntN(3)
+				}
+				in.Ops = append(in.Ops, op)
+			}
+		}
+		if r.IntN(3) == 0 {
+			in.Ops = append(in.Ops, c15Op{Op: "err", Upd: r.IntN(3)})
+		}
+	}
+	// updaters: 1-2 on n0, sometimes one on an undeclared name (its lookup's flush may be refused)
+	in.Ops = append(in.Ops, c15Op{Op: "new", Name: n0, OK: true, Closer: r.IntN(3) != 0})
+	if r.IntN(2) == 0 {
+		in.Ops = append(in.Ops, c15Op{Op: "new", Name: n0, OK: true, Closer: r.IntN(3) != 0})
+	}
+	if r.IntN(3) == 0 {
+		if r.IntN(2) == 0 {
+			in.Ops = append(in.Ops, c15Op{Op: "cfail", K: 0})
+		}
+		in.Ops = append(in.Ops, c15Op{Op: "new", Name: 3, OK: true, Closer: true})
+	}
+	// a history of 2-4 versions of n0 (and one more of the other name), polled one by one or at the end
+	nv := 1 + r.IntN(3)
+	for i := 0; i < nv; i++ {
+		in.Ops = append(in.Ops, c15Op{Op: "put", Name: n0, Tok: nextTok()})
+		if r.IntN(3) != 0 || i == nv-1 {
+			in.Ops = append(in.Ops, c15Op{Op: "refresh"})
+		}
+	}
+	if r.IntN(2) == 0 {
+		in.Ops = append(in.Ops, c15Op{Op: "put", Name: other(), Tok: nextTok()}, c15Op{Op: "refresh"})
+	}
+	gets()
+	steps := 2 + r.IntN(4)
+	for q := 0; q < steps; q++ {
+		// the service moves: rollback / forward (1-3 activations in a row without a poll between), or a new version
+		switch x := r.IntN(10); {
+		case x < 7:
+			for m := 1 + r.IntN(3); m > 0; m-- {
+				in.Ops = append(in.Ops, c15Op{Op: "act", Name: n0, K: r.IntN(6)})
+			}
+		case x < 8:
+			in.Ops = append(in.Ops, c15Op{Op: "act", Name: other(), K: r.IntN(6)})
+		default:
+			in.Ops = append(in.Ops, c15Op{Op: "put", Name: n0, Tok: nextTok()})
+		}
+		// the cache refuses the next write(s)
+		switch x := r.IntN(10); {
+		case x < 4:
+			in.Ops = append(in.Ops, c15Op{Op: "cfail", K: 0}) // exactly the next flush
+		case x < 5:
+			in.Ops = append(in.Ops, c15Op{Op: "cfail", K: 1 + r.IntN(2)}) // intermittently: the next 2-3
+		}
+		// the poll: plain, or gated with the service moving again / a Get / a new updater inside
+		if r.IntN(4) == 0 {
+			g := c15Op{Op: "grefresh"}
+			for m := r.IntN(3); m >= 0; m-- {
+				switch r.IntN(5) {
+				case 0, 1:
+					g.Inner = append(g.Inner, c15Op{Op: "act", Name: n0, K: r.IntN(6)})
+				case 2:
+					g.Inner = append(g.Inner, c15Op{Op: "get", Upd: r.IntN(3), OK: true})
+				case 3:
+					g.Inner = append(g.Inner, c15Op{Op: "new", Name: n0, OK: true, Closer: r.IntN(2) == 0})
+				default:
+					g.Inner = append(g.Inner, c15Op{Op: "put", Name: n0, Tok: nextTok()})
+				}
+			}
+			in.Ops = append(in.Ops, g)
+		} else {
+			in.Ops = append(in.Ops, c15Op{Op: "refresh"})
+		}
+		if r.IntN(2) == 0 {
+			in.Ops = append(in.Ops, c15Op{Op: "refresh"}) // a later poll: the service answers not-changed
+		}
+		if r.IntN(5) == 0 {
+			in.Ops = append(in.Ops, c15Op{Op: "look", Name: 4}) // a lookup whose flush may be refused
+		}
+		gets()
+		if r.IntN(3) == 0 {
+			in.Ops = append(in.Ops, c15Op{Op: "read", Name: n0})
+		}
+	}
+	in.Ops = append(in.Ops, c15Op{Op: "refresh"})
+	gets()
 	return in
 }
 
@@ -1033,6 +1301,37 @@ func runC15(o Opts) {
 					st.SelfOf = id
 					out.Emit(st)
 					nself++
+				}
+			}
+		}
+		// rollbacks at the service and cache write failures
+		nr := 100
+		if o.Tier == "thorough" {
+			nr = 2500
+		}
+		if o.N > 0 {
+			nr = o.N / 4
+		}
+		nrs := 0
+		for k := 0; k < nr; k++ {
+			in := c15GenRoll(o.Seed, k)
+			rec, tr, blog, closes := c15Run(t, in)
+			id := out.n
+			out.Emit(rec)
+			if nrs < 3 && rec.Direct == nil {
+				// self-test: a Refresh whose cache write failed is reported as having succeeded (or the reverse)
+				for i := len(tr) - 1; i >= 0; i-- {
+					if tr[i].kind == "refresh" && strings.HasSuffix(tr[i].s, " 2 1 true") {
+						tr2 := append([]c15Item(nil), tr...)
+						tr2[i].s = strings.TrimSuffix(tr[i].s, " 2 1 true") + " 0 1 true"
+						st := rec
+						st.Coq = c15Render(in, tr2, blog, closes)
+						st.SelfTest = true
+						st.SelfOf = id
+						out.Emit(st)
+						nrs++
+						break
+					}
 				}
 			}
 		}
